@@ -134,15 +134,19 @@ Definition check_obs (c : case) (mf : mesh float) (mq : mesh Q) (ang : list floa
       else optl lF (average_corners_to_faces fo PrimFloat.zero (oadd fo) sF (odiv fo) w ang mf (map dyF ca)) l
   end.
 
+(* corner angles exist on surface meshes only (corner_angles is restricted to SurfaceMesh) *)
+Definition ang_check (c : case) (mf : mesh float) : bool :=
+  match c_cells c with [] => all2 ang_ok (corner_pairs Fops mf) (c_ang c) | _ => true end.
+
 (* the whole case: the implementation's corner angles agree with the model's (cos,sin) pairs, then every observation *)
 Definition check_case (c : case) : bool :=
   let mf := meshF c in let mq := meshQ c in
-  all2 ang_ok (corner_pairs Fops mf) (c_ang c)
+  ang_check c mf
   && forallb (check_obs c mf mq (map (fun a => dyF (fst (fst a))) (c_ang c))) (c_obs c).
 
 (* indices of the observations that disagree (diagnostics) *)
 Definition bad_obs (c : case) : list Z :=
   let mf := meshF c in let mq := meshQ c in
   let ang := map (fun a => dyF (fst (fst a))) (c_ang c) in
-  (if all2 ang_ok (corner_pairs Fops mf) (c_ang c) then [] else [-1])
+  (if ang_check c mf then [] else [-1])
   ++ map fst (filter (fun io => negb (check_obs c mf mq ang (snd io))) (enumerate (c_obs c))).
